@@ -13,6 +13,7 @@ from gen import Contract, UnitFile  # noqa: E402
 import common  # noqa: E402
 
 WD = "src/wrap_in_dbg.rs"
+TA = "src/add_type_annotation.rs"
 POS = "src/parser/position.rs"
 VFS = "src/parser/vfs.rs"
 RLIMIT = 60
@@ -25,7 +26,7 @@ ASSUMPTIONS = {
     "vtc_len_utf8": "-", "vtc_len_utf16": "-", "vu_min": "-", "CharIndices": "(unused here)", "vt_char_indices": "(unused here)", "next": "(unused here)",
     "vc_clone": "-", "vs_string_eq_lit": "-", "vs_string_eq": "-", "vs_string_from_lit": "-",
     "PathBuf": "opaque", "VfsId": "opaque", "ExprView": "the `position` field of the ast::Expression found at the selection",
-    "vS_new": "String::new() is the empty text", "vS_push_str": "String::push_str appends the text",
+    "vS_new": "String::new() is the empty text", "vS_push_str": "String::push_str appends the text", "vS_push_string": "String::push_str(&String) appends the text",
 }
 LEMMAS = {k: {"C21"} for k in ("lemma_off_step", "lemma_off_zero", "lemma_off_mono", "lemma_off_inj", "lemma_cix", "lemma_cix_props",
                               "lemma_blen_concat", "lemma_off_sub", "lemma_u16_bounds", "lemma_u16_split")}
@@ -42,6 +43,8 @@ GLUE = """
 pub fn vS_new() -> (r: String) ensures r@ == Seq::<char>::empty() { unimplemented!() }
 #[verifier::external_body]
 pub fn vS_push_str(s: &mut String, t: &str) ensures final(s)@ == old(s)@ + t@ { unimplemented!() }
+#[verifier::external_body]
+pub fn vS_push_string(s: &mut String, t: &String) ensures final(s)@ == old(s)@ + t@ { unimplemented!() }
 """
 GLUE2 = """
 /// the part of ast::Expression this function reads
@@ -60,7 +63,21 @@ BOUNDED = [
      "bound": "%d listed programs (calls, match, loops with break / continue / return, structs, tuples, dicts, closures, assert, try, non-ASCII strings): wrap_in_dbg at every cursor position of each; every wrapped program must print the same standard output and end with the same status as the original" % len(WRAP_PROGRAMS),
      "expect": {}},
 ]
+ANNOT_PROGRAMS = [
+    "fun add(x: Int, y: Int) { x + y * 2 }\nlet a = add(1, 2)\nlet l = [a, add(a, 3)]\nlet s = \"x\" ^ \"y\"\nprintln(string_repr(l.len()))\nprintln(s)\n",
+    "fun f(o: Option<Int>) {\n  let d = match o {\n    Some(v) => { v + 1 }\n    None => 0\n  }\n  let pair = (d, \"a\")\n  let opt = Some(pair)\n  opt\n}\nprintln(string_repr(f(Some(2))))\n",
+    "struct P { x: Int, name: String }\nenum Shape { Circle(Int), Square }\nfun mk(n: Int) {\n  let p = P{ x: n, name: \"a\" }\n  let sh = Circle(p.x)\n  let d = Dict[\"k\" => [p.x]]\n  let r = Ok(sh)\n  (p, d, r)\n}\nlet (a, b, c) = mk(1)\nprintln(string_repr(a.x))\n",
+    "fun k(x: Int) {\n  let mul = fun(y: Int) { y * x }\n  let u = println(\"in k\")\n  let fl = 1.5 +. 2.0\n  let e = []\n  let n = None\n  mul(3)\n}\nprintln(string_repr(k(4)))\n",
+    "fun g<T>(x: T, xs: List<T>) {\n  let ys = xs.append(x)\n  let first = ys.get(0)\n  let t = True && False\n  ys\n}\nprintln(string_repr(g(1, [2])))\nfun noret() { let z = 1 }\nnoret()\n",
+]
+BOUNDED.append(
+    {"name": "annotation_corpus", "kind": "refactor-corpus", "props": ["C21"], "input": ANNOT_PROGRAMS, "n_inputs": len(ANNOT_PROGRAMS), "check_errors_not_more": True,
+     "command": ["reftest-add-type-annotation", "{file}", "{offset}", "{offset}"],
+     "bound": "%d listed programs with unannotated lets, parameters and return types of every kind of type (Int, String, Float, Bool, Unit, lists, tuples, Option / Result, dicts, structs, enums, functions, type parameters, empty lists, None): add_type_annotation at every cursor position; every result must give no more `check` errors than the original, print the same standard output and end with the same status" % len(ANNOT_PROGRAMS),
+     "expect": {}})
 WITNESSES = [
+    {"match": r"wrapdbg\.annotation_splice\.", "kind": "refactor-corpus", "props": ["C21"], "input": ANNOT_PROGRAMS, "expect": {}, "check_errors_not_more": True,
+     "command": ["reftest-add-type-annotation", "{file}", "{offset}", "{offset}"], "note": "add_type_annotation at every cursor position"},
     {"match": r"wrapdbg\.", "kind": "wrap-dbg-corpus", "props": ["C21"], "input": WRAP_PROGRAMS, "expect": {}, "note": "wrap_in_dbg at every cursor position"},
 ]
 
@@ -90,6 +107,23 @@ def build(tier):
                        requires=[("span_in_the_text_on_boundaries", "%s <= %s <= blen_cs(src@), is_cbt(src@, %s as int), is_cbt(src@, %s as int)" % (A, B, A, B))],
                        ensures=[("dbg_call_around_exactly_the_span",
                                  "result@ == src@.subrange(0, cix(src@, %s as int)) + \"dbg(\"@ + src@.subrange(cix(src@, %s as int), cix(src@, %s as int)) + \")\"@ + src@.subrange(cix(src@, %s as int), src@.len() as int)" % (A, A, B, B))],
+                       body_prelude="proof { lemma_cix(src@, 0); lemma_off_zero(src@); lemma_cix(src@, src@.len() as int); }",
+                       ret="result", props=c21))
+    # add_type_annotation: the annotation text is inserted at the chosen offset and nothing else changes
+    u.add_type(TA, "Candidate")
+    TA_RULES = [
+        rw.simple("R2", r"String::new\(\)", "vS_new()"),
+        rw.simple("R7", r"result\.push_str\(&src\[\.\.([\w\.]+)\]\);", r"vS_push_str(&mut result, vt_slice(src, 0, \1));"),
+        rw.simple("R7", r"result\.push_str\(&src\[([\w\.]+)\.\.\]\);", r"vS_push_str(&mut result, vt_slice_from(src, \1));"),
+        rw.simple("R2", r"result\.push_str\(&candidate\.annotation\);", "vS_push_string(&mut result, &candidate.annotation);"),
+    ]
+    O = "candidate.insert_offset"
+    u.add_range_fn(TA, "add_type_annotation", "let mut result = String::new();", "result.push_str(&src[candidate.insert_offset..]);",
+                   sig="pub fn annotation_splice(src: &str, candidate: &Candidate) -> (result: String)", suffix="\n    result", rules=TA_RULES,
+                   contract=Contract(
+                       requires=[("offset_in_the_text_on_a_boundary", "%s <= blen_cs(src@), is_cbt(src@, %s as int)" % (O, O))],
+                       ensures=[("annotation_inserted_at_the_offset",
+                                 "result@ == src@.subrange(0, cix(src@, %s as int)) + candidate.annotation@ + src@.subrange(cix(src@, %s as int), src@.len() as int)" % (O, O))],
                        body_prelude="proof { lemma_cix(src@, 0); lemma_off_zero(src@); lemma_cix(src@, src@.len() as int); }",
                        ret="result", props=c21))
     u.add_canary_proof()
